@@ -122,6 +122,10 @@ var pmtShapes = []pmtShape{
 	// length fields that do not fit a byte
 	{name: "descriptor of 255 bytes, ES_info_length 262", ptr: 0, streams: []esShape{{desc: []int{255, 3}}, {}}},
 	{name: "program_info_length 300", ptr: 1, pil: 300, streams: []esShape{{desc: []int{2}}}},
+	// the largest section ISO 13818-1 allows (section_length 1021 = 9 + 0 + (5+3*257) + (5+227) + 4)
+	// and the two lengths just below it
+	{name: "section_length 1021 (maximum)", ptr: 0, streams: []esShape{{desc: []int{255, 255, 255}}, {desc: []int{225}}}},
+	{name: "section_length 1019, pointer_field 7", ptr: 7, streams: []esShape{{desc: []int{255, 255, 255}}, {desc: []int{223}}}},
 }
 
 func pmtOpaqueCtors(in *Interp) {
@@ -140,7 +144,7 @@ func pmtOpaqueCtors(in *Interp) {
 
 func runC06(c *Checker) {
 	c.Level = "other"
-	c.explain = "PMT parsing is interpreted on payload *shapes*: pointer_field, preceding sections, section_length, program_info_length, every ES_info_length and descriptor length are fixed, so the section walk and both loops unroll under constant propagation, while table contents, stream types, PIDs, descriptor tags/bodies and the version byte stay symbolic. For each shape the parser must create exactly the reference sequence of descriptors (tag = first byte, body = the announced window) and elementary streams (type byte, 13-bit PID, its descriptors in order), the PID list in order, version = s[5][5:1], current_next = s[5].0; the completion predicate is evaluated on every prefix of each shape; the PSI header accessors, the table-header codec, NewPointerField and ExtractCRC are checked by bit provenance; ReadPMT by one abstract iteration of its loop from a symbolic loop state (read replaced by a model that fills the packet with symbolic bytes and seeded PID bits; NewPMT and the accumulator uninterpreted) with a case analysis on the outcomes of the calls. Decides field layout, loop bounds and advances on these shapes. Does not decide: arbitrary section sizes beyond the shapes (same code for each entry), splits across packets (C17's concatenation contract)."
+	c.explain = "PMT parsing is interpreted on payload *shapes*: pointer_field, preceding sections, section_length, program_info_length, every ES_info_length and descriptor length are fixed, so the section walk and both loops unroll under constant propagation, while table contents, stream types, PIDs, descriptor tags/bodies and the version byte stay symbolic. For each shape the parser must create exactly the reference sequence of descriptors (tag = first byte, body = the announced window) and elementary streams (type byte, 13-bit PID, its descriptors in order), the PID list in order, version = s[5][5:1], current_next = s[5].0; the completion predicate is evaluated on every prefix of each shape; the PSI header accessors, the table-header codec, NewPointerField and ExtractCRC are checked by bit provenance; ReadPMT by one abstract iteration of its loop from a symbolic loop state (read replaced by a model that fills the packet with symbolic bytes and seeded PID bits; NewPMT and the accumulator uninterpreted) with a case analysis on the outcomes of the calls. Decides field layout, loop bounds and advances on these shapes. Does not decide: arbitrary section sizes beyond the shapes (same code for each entry), splits across packets (C17's concatenation contract; C06.carrier decides only which bytes of one packet are its payload, for seven adaptation-field lengths)."
 	c.trust("go/ssa + go/types (x/tools v0.29.0)", "E1 transfer functions", "layouts transcribed from ISO/IEC 13818-1 Tables 2-29/2-33", "NewPmtDescriptor / NewPmtElementaryStream store their arguments (their own decoders are C20)")
 	c.checkPSIAccessors()
 	c.checkTableHeaderCodec()
@@ -148,6 +152,7 @@ func runC06(c *Checker) {
 	c.checkDonePredicate()
 	c.checkExtractCRC()
 	c.checkReadPMT()
+	c.checkCarrier()
 }
 
 func (c *Checker) checkPSIAccessors() {
@@ -887,4 +892,64 @@ func (c *Checker) checkReadPMTStep(fn *ssa.Function) {
 		_, nilErr := got1.(NilV)
 		c.check(rule, anchor, "once complete, the table found is returned without error", leaves(f2) && sameVal(got0, r.ls.Pre[pmtPhi]) && nilErr, fmt.Sprintf("result (%s, %s)", showVal(got0), showVal(got1)))
 	}
+}
+
+// checkCarrier: the "with or without adaptation-field stuffing" clause at the
+// level of one packet. The accumulator (C17) appends packet.Payload(pkt); this
+// rule decides that those bytes are exactly the ones behind the adaptation
+// field for the stuffing amounts a PMT packetiser produces, including the
+// one-byte field (adaptation_field_length 0) that leaves 183 payload bytes.
+// The full range of lengths is C02.partition.
+func (c *Checker) checkCarrier() {
+	const anchor = "packet:Payload"
+	const rule = "C06.carrier"
+	fn, err := c.P.Func(anchor)
+	if err != nil {
+		c.undecided(rule, anchor, "anchor", err.Error())
+		return
+	}
+	c.analysed[fn.String()] = true
+	var bad []string
+	n := 0
+	for _, L := range []int{-1, 0, 1, 7, 100, 181, 182} {
+		L := L
+		afc := 3
+		if L < 0 {
+			afc = 1
+		}
+		pre := func(in *Interp, st *State, ps []Val) {
+			seedAFC(afc, 0)(in, st, ps)
+			if L >= 0 {
+				in.setCell(st, ps[0].(*Ptr).Obj, "4", constByte(L))
+			}
+		}
+		sum := Analyze(c.P, fn, &AnalyzeOpts{Pre: pre, Setup: deepSetup})
+		n++
+		start := 4
+		name := "no adaptation field"
+		if L >= 0 {
+			start = 5 + L
+			name = fmt.Sprintf("adaptation_field_length %d", L)
+		}
+		if sum.Failed != "" {
+			bad = append(bad, name+": analysis: "+sum.Failed)
+			continue
+		}
+		if w := sum.WrittenCells(); len(w) > 0 {
+			bad = append(bad, name+": writes "+strings.Join(w, ","))
+			continue
+		}
+		if eq, dec, det := equivBits(sum.in.nilBit(sum.RetN(1)), bconst(true), 16); !eq || !dec {
+			bad = append(bad, name+": a packet with the payload flag is refused: "+det)
+			continue
+		}
+		lo, k, ok, why := windowOf(sum.RetN(0), paramObj(sum, 0))
+		if !ok {
+			bad = append(bad, name+": "+why)
+		} else if lo != start || k != 188-start {
+			bad = append(bad, fmt.Sprintf("%s: returns packet[%d:%d], the payload is packet[%d:188]", name, lo, lo+k, start))
+		}
+	}
+	c.check(rule, anchor, "the bytes a PMT packet contributes are packet[payload start:188], without and with adaptation-field stuffing (field lengths 0, 1, 7, 100, 181, 182)", len(bad) == 0, strings.Join(bad, "; "))
+	c.floorCheck("C06.carrier cases", n, 7)
 }
